@@ -29,22 +29,22 @@ theorem covers_iff (n : Nat) (l : List Nat) : covers n l = true ↔ ∀ i, i < n
 @[simp] theorem stops_append (a b : List Evt) : stops (a ++ b) = stops a + stops b := by
   simp [stops, List.countP_append]
 
-@[simp] theorem pubRanks_tellAll (c : SCmd) (k : List Kind) : pubRanks (tellAll c k) = [] := by
+@[simp] theorem pubRanks_tellAll (c : SCmd) (n : Nat) (u : List Nat) : pubRanks (tellAll c n u) = [] := by
   unfold tellAll
-  induction (List.filter (reachableAt k) (List.range k.length)) with
+  induction (List.filter (fun i => !u.contains i) (List.range n)) with
   | nil => rfl
   | cons a l ih => simpa using ih
 
-@[simp] theorem stops_tellAll (c : SCmd) (k : List Kind) : stops (tellAll c k) = 0 := by
+@[simp] theorem stops_tellAll (c : SCmd) (n : Nat) (u : List Nat) : stops (tellAll c n u) = 0 := by
   unfold tellAll
-  induction (List.filter (reachableAt k) (List.range k.length)) with
+  induction (List.filter (fun i => !u.contains i) (List.range n)) with
   | nil => rfl
   | cons a l ih => simpa using ih
 
-theorem mem_tellAll (c : SCmd) (k : List Kind) (i : Nat) (hi : i < k.length) (hr : reachableAt k i = true) :
-    Evt.send i c ∈ tellAll c k := by
+theorem mem_tellAll (c : SCmd) (n : Nat) (u : List Nat) (i : Nat) (hi : i < n) (hr : i ∉ u) :
+    Evt.send i c ∈ tellAll c n u := by
   simp only [tellAll, List.mem_map, List.mem_filter, List.mem_range]
-  exact ⟨i, ⟨hi, hr⟩, rfl⟩
+  exact ⟨i, ⟨hi, by simpa using hr⟩, rfl⟩
 
 /-- 1 if `StopNode` has necessarily been called already (the node is exiting or exited) -/
 def stopBudget (s : St) : Nat := if 4 ≤ s.st.rank then 1 else 0
@@ -59,6 +59,7 @@ theorem step_kinds (f : Bool) (s : St) (o : Op) : (step f s o).1.kinds = s.kinds
   | svcOther i => rfl
   | stopDone b => simp only [step, stopDone]; (repeat' split) <;> rfl
   | tick => rfl
+  | setRes i up => rfl
 
 theorem step_mode (f : Bool) (s : St) (o : Op) : (step f s o).1.stopMode = s.stopMode := by
   cases o with
@@ -68,13 +69,14 @@ theorem step_mode (f : Bool) (s : St) (o : Op) : (step f s o).1.stopMode = s.sto
   | svcOther i => rfl
   | stopDone b => simp only [step, stopDone]; (repeat' split) <;> rfl
   | tick => rfl
+  | setRes i up => rfl
 
 /-- unfold one step in a state whose `st` is a constructor -/
 macro "nc_unfold" : tactic =>
   `(tactic| simp only [step, retireCmd, exitCmd, webRetireCmd, webExitCmd, queryAck, serviceRetired, stopDone])
 
 theorem step_rank_le (s : St) (o : Op) : s.st.rank ≤ (step true s o).1.st.rank := by
-  obtain ⟨st, kinds, qpend, support, retired, allSup, stopPend, stopMode⟩ := s
+  obtain ⟨st, kinds, qpend, support, retired, allSup, stopPend, stopMode, unres⟩ := s
   cases o with
   | cmd c => cases c <;> cases st <;> nc_unfold <;> (repeat' split) <;> simp_all [NS.rank]
   | qack i ok => nc_unfold; (repeat' split) <;> simp
@@ -82,6 +84,7 @@ theorem step_rank_le (s : St) (o : Op) : s.st.rank ≤ (step true s o).1.st.rank
   | svcOther i => simp [step]
   | stopDone b => cases st <;> nc_unfold <;> (repeat' split) <;> simp_all [NS.rank]
   | tick => simp [step]
+  | setRes i up => simp [step]
 
 /-- a step publishes nothing and keeps the state, or publishes exactly the new state, or (an
 exit whose StopNode completes inline with success) publishes exiting then exited from retired -/
@@ -96,10 +99,11 @@ theorem step_pubs (s : St) (o : Op) :
   | svcOther i => simp [step]
   | stopDone b => nc_unfold; (repeat' split) <;> simp
   | tick => simp [step]
+  | setRes i up => simp [step]
 
 theorem step_stops (s : St) (o : Op) :
     stops (step true s o).2 + stopBudget s ≤ stopBudget (step true s o).1 := by
-  obtain ⟨st, kinds, qpend, support, retired, allSup, stopPend, stopMode⟩ := s
+  obtain ⟨st, kinds, qpend, support, retired, allSup, stopPend, stopMode, unres⟩ := s
   cases o with
   | cmd c => cases c <;> cases st <;> nc_unfold <;> (repeat' split) <;> simp_all [NS.rank, stopBudget]
   | qack i ok => nc_unfold; (repeat' split) <;> simp [stopBudget]
@@ -107,6 +111,7 @@ theorem step_stops (s : St) (o : Op) :
   | svcOther i => simp only [step, stops_reply, stops_nil, Nat.zero_add]; exact Nat.le_refl _
   | stopDone b => cases st <;> nc_unfold <;> (repeat' split) <;> simp_all [NS.rank, stopBudget]
   | tick => simp only [step, stops_nil, Nat.zero_add]; exact Nat.le_refl _
+  | setRes i up => simp only [step, stops_nil, Nat.zero_add]; exact Nat.le_refl _
 
 /-! ### histories -/
 
@@ -181,7 +186,7 @@ theorem run_stops (s : St) (ops : List Op) :
 structure RInv (hist : List Op) (s : St) : Prop where
   sup_all : s.allSup = true → ∀ i, i < s.kinds.length → i ∈ s.support
   sup_decl : ∀ i, i ∈ s.support → Op.qack i true ∈ hist
-  reach : ∀ i, (i ∈ s.qpend ∨ i ∈ s.support) → reachableAt s.kinds i = true
+  reach : ∀ i, (i ∈ s.qpend ∨ i ∈ s.support) → i < s.kinds.length
   ret_hist : ∀ i, i ∈ s.retired ↔ (i < s.kinds.length ∧ Op.svcRetired i ∈ hist)
   st_ret : 3 ≤ s.st.rank → ∀ i, i < s.kinds.length → i ∈ s.retired
   ret_st : 0 < s.kinds.length → (∀ i, i < s.kinds.length → i ∈ s.retired) → 3 ≤ s.st.rank
@@ -191,7 +196,8 @@ structure RInv (hist : List Op) (s : St) : Prop where
 
 theorem RInv.start (kinds : List Kind) (mode : StopMode) : RInv [] (start kinds mode) := by
   refine ⟨?_, ?_, ?_, ?_, ?_, ?_, ?_, ?_, ?_⟩ <;> simp [NodeCtrl.start, NS.rank]
-  intro h; exact ⟨0, h⟩
+  · intro i hi _; exact hi
+  · intro h; exact ⟨0, h⟩
 
 theorem mem_snoc_of_mem {α} {a : α} {l : List α} (b : α) (h : a ∈ l) : a ∈ l ++ [b] :=
   List.mem_append_left _ h
@@ -225,13 +231,13 @@ theorem RInv.step {hist : List Op} {s : St} (h : RInv hist s) (o : Op) :
   cases o with
   | cmd c =>
     have hs := h.snoc_same (.cmd c) (by intro i; simp)
-    obtain ⟨st, kinds, qpend, support, retired, allSup, stopPend, stopMode⟩ := s
+    obtain ⟨st, kinds, qpend, support, retired, allSup, stopPend, stopMode, unres⟩ := s
     cases c <;> cases st <;> nc_unfold <;> (repeat' split) <;> (try exact hs) <;>
       (obtain ⟨h1, h2, h3, h4, h5, h6, h7, h8, h9⟩ := hs
        refine ⟨?_, ?_, ?_, ?_, ?_, ?_, ?_, ?_, ?_⟩ <;> simp_all [NS.rank])
   | qack i ok =>
     have hs := h.snoc_same (.qack i ok) (by intro i; simp)
-    obtain ⟨st, kinds, qpend, support, retired, allSup, stopPend, stopMode⟩ := s
+    obtain ⟨st, kinds, qpend, support, retired, allSup, stopPend, stopMode, unres⟩ := s
     nc_unfold
     split
     · exact hs
@@ -242,12 +248,7 @@ theorem RInv.step {hist : List Op} {s : St} (h : RInv hist s) (o : Op) :
       split
       · rename_i hok
         subst hok
-        have hpos : 0 < kinds.length := by
-          have := h3 i (Or.inl hq')
-          unfold reachableAt at this
-          cases hk : kinds[i]? with
-          | none => simp [hk] at this
-          | some k => exact Nat.lt_of_le_of_lt (Nat.zero_le _) (List.getElem?_eq_some_iff.mp hk).1
+        have hpos : 0 < kinds.length := Nat.lt_of_le_of_lt (Nat.zero_le _) (h3 i (Or.inl hq'))
         refine ⟨?_, ?_, ?_, h4, h5, h6, h7, fun _ => hpos, h9⟩
         · intro ha; simpa [covers_iff] using ha
         · intro j hj
@@ -266,7 +267,7 @@ theorem RInv.step {hist : List Op} {s : St} (h : RInv hist s) (o : Op) :
         · exact h3 j (Or.inl (List.mem_filter.mp hj).1)
         · exact h3 j (Or.inr hj)
   | svcRetired i =>
-    obtain ⟨st, kinds, qpend, support, retired, allSup, stopPend, stopMode⟩ := s
+    obtain ⟨st, kinds, qpend, support, retired, allSup, stopPend, stopMode, unres⟩ := s
     obtain ⟨h1, h2, h3, h4, h5, h6, h7, h8, h9⟩ := h
     simp only at h1 h2 h3 h4 h5 h6 h7 h8 h9
     have hist_iff : ∀ j, j ≠ i → (Op.svcRetired j ∈ hist ++ [Op.svcRetired i] ↔ Op.svcRetired j ∈ hist) :=
@@ -310,10 +311,14 @@ theorem RInv.step {hist : List Op} {s : St} (h : RInv hist s) (o : Op) :
   | svcOther i => exact h.snoc_same _ (by intro i; simp)
   | stopDone b =>
     have hs := h.snoc_same (.stopDone b) (by intro i; simp)
-    obtain ⟨st, kinds, qpend, support, retired, allSup, stopPend, stopMode⟩ := s
+    obtain ⟨st, kinds, qpend, support, retired, allSup, stopPend, stopMode, unres⟩ := s
     cases st <;> nc_unfold <;> (repeat' split) <;> (try exact hs) <;>
       (obtain ⟨h1, h2, h3, h4, h5, h6, h7, h8, h9⟩ := hs
        refine ⟨?_, ?_, ?_, ?_, ?_, ?_, ?_, ?_, ?_⟩ <;> simp_all [NS.rank] <;> (try omega))
+  | setRes i up =>
+    have hs := h.snoc_same (.setRes i up) (by intro i; simp)
+    obtain ⟨h1, h2, h3, h4, h5, h6, h7, h8, h9⟩ := hs
+    exact ⟨h1, h2, h3, h4, h5, h6, h7, h8, h9⟩
   | tick =>
     have hs := h.snoc_same .tick (by intro i; simp)
     obtain ⟨h1, h2, h3, h4, h5, h6, h7, h8, h9⟩ := hs
